@@ -613,6 +613,33 @@ impl<'a, T: QueryToRelationTranslator + Copy + Clone> VisitedQueryRelations<'a, 
             .map(|e| self.translator.try_expr(e, columns))
             .map_or(Ok(None), |r| r.map(Some))?;
 
+        // When the innermost layer of the split is a reduce that reads its input directly (GROUP BY without
+        // aggregates), there is no map to carry the WHERE: filter the input first
+        fn reads_input_through_reduce(reduce: &crate::expr::split::Reduce) -> bool {
+            reduce
+                .map()
+                .map_or(true, |map| map.reduce().map_or(false, reads_input_through_reduce))
+        }
+        let bare_reduce = match &split {
+            Split::Map(map) => map.reduce().map_or(false, reads_input_through_reduce),
+            Split::Reduce(reduce) => reads_input_through_reduce(reduce),
+        };
+        let (from, filter) = match filter {
+            Some(filter) if bare_reduce => {
+                let filtered: Relation = Relation::map()
+                    .with_iter(
+                        from.schema()
+                            .iter()
+                            .map(|field| (field.name().to_string(), Expr::col(field.name())))
+                            .collect::<Vec<_>>(),
+                    )
+                    .filter(filter)
+                    .input(from)
+                    .build();
+                (Arc::new(filtered), None)
+            }
+            filter => (from, filter),
+        };
         // Build a Relation
         let mut relation: Relation = match split {
             Split::Map(map) => {
